@@ -24,16 +24,16 @@ func init() { log.SetOutput(io.Discard) } // the DHT functions log every failed 
 type behaviour int
 
 const (
-	bHonest    behaviour = iota // answers from a routing table (random subset), nearest first / closer-than-me
-	bRealNode                   // a real kademlia.DHTNode answers
-	bError                      // the ask fails
-	bAll                        // returns every node of the network (incl. itself and the asker's earlier contacts)
-	bSelf                       // returns itself
-	bFabricate                  // returns ids from the fabricated pool (nodes that do not exist)
-	bHuge                       // returns thousands of entries (pool and network repeated)
-	bTargetBogus                // returns the target id with bogus info
-	bFarther                    // returns only ids farther than itself
-	bCycle                      // returns the nodes that were contacted before it
+	bHonest      behaviour = iota // answers from a routing table (random subset), nearest first / closer-than-me
+	bRealNode                     // a real kademlia.DHTNode answers
+	bError                        // the ask fails
+	bAll                          // returns every node of the network (incl. itself and the asker's earlier contacts)
+	bSelf                         // returns itself
+	bFabricate                    // returns ids from the fabricated pool (nodes that do not exist)
+	bHuge                         // returns thousands of entries (pool and network repeated)
+	bTargetBogus                  // returns the target id with bogus info
+	bFarther                      // returns only ids farther than itself
+	bCycle                        // returns the nodes that were contacted before it
 	numBehaviours
 )
 
